@@ -98,8 +98,8 @@ UNITS.append(Unit(
 UNITS.append(Unit(
     id='C15/lookup.MATCH/approximate', target=f'{LK}:MATCH', fork='star',
     inputs=[('key', NUMS()), ('a', NUMS()), ('b', NUMS()), ('c', NUMS())],
-    requires=lambda k, a, b, c: And(a.value < b.value, b.value < c.value),
-    cases=[Case('approximate MATCH on ascending data = the last position whose value does not exceed the lookup value', lambda *a: True, match_approx)],
+    requires=lambda k, a, b, c: And(a.value <= b.value, b.value <= c.value),
+    cases=[Case('approximate MATCH on ascending data (equal neighbours allowed) = the last position whose value does not exceed the lookup value', lambda *a: True, match_approx)],
     call=match_call(False, 1), native_call=match_call(True, 1), bounded_domain_cap=700))
 
 
